@@ -61,11 +61,12 @@ def main():
         if not mc.ok:
             raise vlib.InfraError("SourceMap model violates %s: spec and code model disagree" % mc.violated)
         ck.add_tlc(mc, "SourceMap_mc " + name)
-    for negcfg, inv in (("SourceMap_neg.cfg", "SameByte"), ("SourceMap_negeol.cfg", "EndOfLineMapped")):
+    for negcfg, inv in (("SourceMap_neg.cfg", "SameByte"), ("SourceMap_negeol.cfg", "EndOfLineMapped"),
+                        ("SourceMap_negsym.cfg", "SymbolsFound")):
         neg = vlib.tlc("MCSourceMap", negcfg, workers=1, timeout=300)
         if neg.violated != inv:
             raise vlib.InfraError("negative config %s not rejected by %s (got %s)" % (negcfg, inv, neg.violated))
-    ck.set("negative_configs_rejected", 2)
+    ck.set("negative_configs_rejected", 3)
 
     # --- GEN: TLC enumerates the cases ----------------------------------------------------------
     cases = []
@@ -110,7 +111,7 @@ def main():
     if s["corpus_files"] < 50:
         raise vlib.InfraError("only %d .templ files found under %s" % (s["corpus_files"], vlib.REPO))
     slots = set(json.loads(k)["slot"] for k in uniq)
-    if len(slots) < 25 or any(s["per_slot"].get(x, 0) == 0 for x in slots):
+    if len(slots) < 26 or any(s["per_slot"].get(x, 0) == 0 for x in slots):
         raise vlib.InfraError("a syntactic slot was not exercised: %s" % s["per_slot"])
     if s["unfaithful_ranges"]:
         ck.notes.append("%d expressions whose parser range does not hold their text were skipped (C06's subject)" % s["unfaithful_ranges"])
@@ -169,7 +170,7 @@ def main():
                             "reproduce": "parser.ParseString + generator.Generate on the file, then SourceMap lookups at the rows' (sl, sc)"}
                     if e["id"] in bad:
                         for sig in bad[e["id"]]:
-                            full = sig if sig.startswith("Add.") else "%s:%s" % (sig, e.get("h") or e.get("what"))
+                            full = sig if sig.startswith("Add") else "%s:%s" % (sig, e.get("h") or e.get("what"))
                             ck.violation(full, "source map lookup breaks %s for %s in %s" % (
                                 sig, e.get("path") or e.get("what"), fi.get("name")), case)
                     else:
